@@ -76,7 +76,11 @@ func reasmSpec(id string, which reasm.Which, snapshot bool, rule string, assumpt
 		// random histories
 		c.ForEach(nRandom, func(w, i int) {
 			r := c.Rand(1, uint64(i))
-			one(reasm.Random(r, reasm.GenOpts{MaxOps: 60}))
+			h := reasm.Random(r, reasm.GenOpts{MaxOps: 60, Reentrant: which.C01})
+			if len(h.Reenter) > 0 {
+				c.Add("histories_with_reentrant_callbacks", 1)
+			}
+			one(h)
 		})
 		c.Add("random_histories", int64(nRandom))
 		// exhaustive small scope
